@@ -183,3 +183,24 @@ Lemma and_or_absorb_r x y : wand y (wor x y) = y. Proof. unfold wand, wor. bitwi
 Lemma or_or_absorb_l x y : wor x (wor x y) = wor x y. Proof. unfold wor. bitwise. Qed.
 Lemma or_or_absorb_r x y : wor y (wor x y) = wor x y. Proof. unfold wor. bitwise. Qed.
 Lemma xor_xor_cancel_r x y : wxor y (wxor x y) = x. Proof. unfold wxor. bitwise. Qed.
+
+Lemma div_0_l x : wdiv 0 x = 0.
+Proof. unfold wdiv. destruct (x =? 0); [reflexivity|apply Zdiv_0_l]. Qed.
+Lemma sdiv_0_l x : wsdiv 0 x = 0.
+Proof.
+  unfold wsdiv. destruct (x =? 0); [reflexivity|]. rewrite sgn_0.
+  replace (Z.quot 0 (sgn x)) with 0 by (destruct (sgn x); reflexivity).
+  apply Z.mod_0_l. pose proof W_pos; lia.
+Qed.
+Lemma mod_0_l x : wmod 0 x = 0.
+Proof. unfold wmod. destruct (x =? 0); [reflexivity|apply Zmod_0_l]. Qed.
+
+Lemma eq_xor_self a y : weq a (wxor a y) = wiszero y.
+Proof.
+  unfold weq, wiszero. destruct (Z.eqb_spec y 0) as [->|Hy].
+  - unfold wxor. rewrite Z.lxor_0_r, Z.eqb_refl. reflexivity.
+  - destruct (Z.eqb_spec a (wxor a y)) as [E|E]; [|reflexivity].
+    exfalso. apply Hy. rewrite <- (xor_xor_cancel a y). rewrite <- E. apply xor_diag.
+Qed.
+Lemma eq_xor_self_r a x : weq a (wxor x a) = wiszero x.
+Proof. rewrite xor_comm. apply eq_xor_self. Qed.
